@@ -452,8 +452,8 @@ fn parts(tier: Tier) -> Vec<PartDef> {
         ),
         PartDef::new(
             "clock-jumps",
-            Cfg::new("C14/clock-jumps").dev(tier.pick(1, 2)).free(&["script"]),
-            json!({"menu": ["none", "-1 h", "1969", "1900", "+1 h", "year 30000", "EPOCH+2^62 s"], "jump_points": "before every clock read", "max_jumps_per_run": tier.pick(1, 2), "scripts": SCRIPTS}),
+            Cfg::new("C14/clock-jumps").dev(tier.pick(2, 3)).free(&["script"]),
+            json!({"menu": ["none", "-1 h", "1969", "1900", "+1 h", "year 30000", "EPOCH+2^62 s"], "jump_points": "before every clock read", "max_jumps_per_run": tier.pick(2, 3), "scripts": SCRIPTS}),
             run_clock,
         ),
         PartDef::new(
